@@ -63,6 +63,7 @@ const (
 )
 
 type FCtx struct {
+	ghosts   map[string]*types.Var // `called("pkg.F", k)`: ghost booleans, true once the k-th call site of pkg.F has been executed
 	eng      *Engine
 	fi       *FuncInfo
 	con      *Contract
